@@ -422,7 +422,8 @@ func UnmarshalTx(
 // This is typically used during transaction construction.
 func EstimateUnits(r Rules, actions []Action, authFactory AuthFactory) (fees.Dimensions, error) {
 	var (
-		bandwidth          = uint64(MaxBaseSize)
+		// The base is encoded as a length-delimited field: wire tag + varint length prefix + payload
+		bandwidth          = uint64(len(canoto__SerializeTx__Base__tag)) + canoto.SizeUint(uint64(MaxBaseSize)) + uint64(MaxBaseSize)
 		stateKeysMaxChunks = []uint16{} // TODO: preallocate
 		computeOp          = math.NewUint64Operator(r.GetBaseComputeUnits())
 		readsOp            = math.NewUint64Operator(0)
@@ -434,7 +435,6 @@ func EstimateUnits(r Rules, actions []Action, authFactory AuthFactory) (fees.Dim
 	bandwidth += consts.Uint8Len
 	for i, action := range actions {
 		actionBytes := action.Bytes()
-		actionSize := len(actionBytes)
 
 		actor := authFactory.Address()
 		stateKeys := action.StateKeys(actor, CreateActionID(ids.Empty, uint8(i)))
@@ -442,12 +442,14 @@ func EstimateUnits(r Rules, actions []Action, authFactory AuthFactory) (fees.Dim
 		if !ok {
 			return fees.Dimensions{}, ErrInvalidKeyValue
 		}
-		bandwidth += uint64(actionSize)
+		// Each action is encoded as a length-delimited field: wire tag + varint length prefix + payload
+		bandwidth += uint64(len(canoto__SerializeTx__Actions__tag)) + canoto.SizeBytes(actionBytes)
 		stateKeysMaxChunks = append(stateKeysMaxChunks, actionStateKeysMaxChunks...)
 		computeOp.Add(action.ComputeUnits(r))
 	}
 	authBandwidth, authCompute := authFactory.MaxUnits()
-	bandwidth += authBandwidth
+	// The auth is encoded as a length-delimited field as well
+	bandwidth += uint64(len(canoto__SerializeTx__Auth__tag)) + canoto.SizeUint(authBandwidth) + authBandwidth
 	sponsorStateKeyMaxChunks := r.GetSponsorStateKeysMaxChunks()
 	stateKeysMaxChunks = append(stateKeysMaxChunks, sponsorStateKeyMaxChunks...)
 	computeOp.Add(authCompute)
